@@ -17,6 +17,8 @@ are unchanged.  `op.arity` = number of cells the word may take from the stack.
                                        decoding of exactly `slice s n`, the offset moved by exactly n, the
                                        value is on top and nothing else changed
   read_succeeds_bits / seek_iff        reads/seeks inside the input do succeed (the theorems are not vacuous)
+  find_ok                              a successful find moves nothing and pushes the absolute offset of the FIRST
+                                       byte position of the rest where the pattern occurs, or nil if there is none
   fail_atomic                          any word that does not succeed — read past the end, magic mismatch,
                                        seek out of range, find on a non-byte rest, huge/negative/ill-typed
                                        argument — leaves input, offset and stash untouched and the stack
@@ -29,6 +31,7 @@ are unchanged.  `op.arity` = number of cells the word may take from the stack.
 import XehModel.Proofs.CursorLemmas
 import XehModel.Proofs.CursorRead
 import XehModel.Proofs.CursorLifo
+import XehModel.Proofs.CursorFind
 
 set_option linter.unusedSimpArgs false
 set_option linter.unusedVariables false
@@ -109,6 +112,19 @@ theorem seek_iff (s : CurState) (c : Cell) (t : List Cell) (p : Nat)
   by_cases h : s.base ≤ p ∧ p ≤ s.base + s.input.length
   · left; simp [h]
   · right; simp [h]
+
+/-- a successful `find`: input, offset, stash untouched; the pattern and the rest are whole bytes and
+    the rest starts on a byte boundary of its buffer; the result is `offset + 8·d` for the smallest
+    byte index `d` at which the pattern occurs in the rest, or nil when it occurs at none -/
+theorem find_ok (s s' : CurState) (h : step s .find = (s', .ok ())) :
+    ∃ c t pat, s.ds = c :: t ∧ c.toBitstr = .ok pat ∧ pat.length % 8 = 0 ∧
+      (s.base + s.pos) % 8 = 0 ∧ (s.input.length - s.pos) % 8 = 0 ∧
+      ((∃ d, s' = { s with ds := .int ((s.base + s.pos + d * 8 : Nat) : Int) :: t } ∧
+          d ≤ (s.input.length - s.pos) / 8 ∧
+          occursAt pat (s.input.drop s.pos) d ∧ ∀ k, k < d → ¬ occursAt pat (s.input.drop s.pos) k) ∨
+       (s' = { s with ds := .nil :: t } ∧
+          ∀ k, k ≤ (s.input.length - s.pos) / 8 → ¬ occursAt pat (s.input.drop s.pos) k)) :=
+  find_ok_aux s s' h
 
 /-! ### failures are atomic -/
 
